@@ -200,7 +200,8 @@ def group_size_rule(chk):
         for fn, tp, tv, tl in targets:
             checked += 1
             f = facts_of(tp)
-            tvt = U(tv)
+            from ..core import strip_identity
+            tvt = U(strip_identity(tv))
             feat = "self.weight.numel() // self.weight.shape[0]"
             ok = any(f.get(a) is t for a, t in ((f"{feat} % {tvt} == 0", True), (f"{feat} % {tvt} != 0", False)))
             ok_feat = True
